@@ -10,8 +10,10 @@ import importlib.machinery, importlib.util
 loader = importlib.machinery.SourceFileLoader("check", "./check")
 spec = importlib.util.spec_from_loader("check", loader)
 chk = importlib.util.module_from_spec(spec); loader.exec_module(chk)
+ready = set(json.load(open("meta/ready.json")))
 for mp in sorted(glob.glob("meta/C*.json")):
     m = json.load(open(mp))
+    if m["id"] not in ready: continue
     if m.get("disabled"): continue
     c = chk.Check(m["id"], "quick", 1, None)
     ok, out = c.build_engine()
@@ -27,7 +29,7 @@ PY
 # build each claimed property's target on its own: one property that does not build must not stop the others
 # (its own check will report it)
 for m in meta/C*.json; do
-  t=$(python3 -c "import json,sys; m=json.load(open('$m')); print('' if m.get('disabled') else m['properties_file'][:-2]+'.vo')")
+  t=$(python3 -c "import json,sys; m=json.load(open('$m')); r=json.load(open('meta/ready.json')); print('' if (m.get('disabled') or m['id'] not in r) else m['properties_file'][:-2]+'.vo')")
   [ -n "$t" ] && { timeout 3000 make -C coq -j16 "$t" >/dev/null 2>&1 || echo "setup: $t did not build (its check will report it)"; }
 done
 echo setup ok
